@@ -465,7 +465,8 @@ def judge(res, case, raw_j, out, model, t2l, s2l, lim, hist):
             return False
         if model is not None:
             exp = 'unhashable' if kind == 'unhashable-finalize' else 'tooLarge'
-            if model.get('err') != exp:
+            both = not clean and not bounded     # two faults: which is hit first depends on a set's iteration order
+            if model.get('err') != exp and not (both and model.get('err') in ('unhashable', 'tooLarge')):
                 res.fail('mismatch', 'model-error-class', 'finalising %s under %s: real %s, model %s' % (
                     show(raw_j), tag, desc, json.dumps(model)), case)
                 return False
